@@ -165,6 +165,9 @@ def cases(ctx):
                     f1(cb); f2(cb)
                 except Exception:
                     continue
+                v = cb.get("validity") or {}
+                if "until" in v and "duration" in v:       # not a valid configuration (the schema allows one of the two)
+                    continue
                 pair(base, cb, "edit", "%s: %s + %s" % (bn, d1, d2), imported=("keyAlgorithm" not in (d1, d2)))
     # with profile: profile edits and non-semantic profile changes
     P, C = PROFILE(), WITHPROF()
